@@ -195,7 +195,8 @@ func reproduced(v *Violation, oc *replayOutcome) bool {
 	case "assert":
 		return strings.Contains(oc.Output, "VASSERT-FAIL "+v.Label)
 	case "panic":
-		return strings.Contains(oc.Output, "panic:") || strings.Contains(oc.Output, "fatal error:")
+		out := strings.ReplaceAll(oc.Output, "panic: test timed out", "")
+		return strings.Contains(out, "panic:") || strings.Contains(out, "fatal error:")
 	case "deadlock":
 		return oc.TimedOut || strings.Contains(oc.Output, "all goroutines are asleep") || strings.Contains(oc.Output, "test timed out")
 	}
